@@ -291,6 +291,33 @@ fn gen(n: usize, maxv: usize, cur: &mut Vec<usize>, out: &mut Vec<Vec<usize>>) {
     }
 }
 
+/// `EliasFano::from(slice)` validates its input: every non-monotone slice of up to 4 values over 0..=4
+/// (and the same shifted to the top of the range) must be rejected, every monotone one accepted.
+fn invalid_slices(ctx: &mut Ctx) {
+    for shift in [0usize, usize::MAX - 4] {
+        for n in 2..=4usize {
+            for code in 0..5usize.pow(n as u32) {
+                let s: Vec<usize> = (0..n).map(|i| shift + (code / 5usize.pow(i as u32)) % 5).collect();
+                let monotone = s.windows(2).all(|w| w[0] <= w[1]);
+                if !ctx.case(|| format!("EliasFano::from slice={s:?}")) {
+                    continue;
+                }
+                ctx.nontrivial();
+                let r = guard(|| {
+                    let ef = EliasFano::from(&s[..]);
+                    ef.iter().collect::<Vec<_>>()
+                });
+                match (monotone, r) {
+                    (false, Outcome::Ret(g)) => ctx.violation("C03|EliasFano::from|non-monotone-slice-accepted", format!("from({s:?}) was accepted and reads back {g:?}")),
+                    (true, Outcome::Panic(m)) => ctx.violation("C03|EliasFano::from|panic", format!("from({s:?}): {m}")),
+                    (true, Outcome::Ret(g)) if g != s => ctx.violation("C03|EliasFano::from|wrong-observation", format!("from({s:?}) reads back {g:?}")),
+                    _ => {}
+                }
+            }
+        }
+    }
+}
+
 fn invalid_pushes(ctx: &mut Ctx) {
     // every (n, u, prefix, bad value) with n <= 3, u in {0, 5, MAX}: the bad push must panic and
     // the builder must continue exactly as if it had not happened
@@ -315,17 +342,38 @@ fn invalid_pushes(ctx: &mut Ctx) {
                             bads.push((0, "out-of-order"));
                         }
                     }
-                    for (bad, class) in bads {
-                        if !ctx.case(|| format!("EliasFanoBuilder::push invalid n={n} u={u} seq={s:?} after={k} bad={bad} class={class}")) {
+                    // the valid prefix arrives by push, by one extend or by one extend per value; the bad value
+                    // by push, as a one-element extend, or at the head of an extend carrying the valid rest
+                    for (bad, class) in bads.into_iter().flat_map(|b| (0..9usize).map(move |mode| (b, mode))).map(|((bad, class), mode)| ((bad, mode), class)) {
+                        let (bad, mode) = bad;
+                        let (pmode, bmode) = (mode / 3, mode % 3);
+                        if k == 0 && pmode > 0 {
+                            continue;
+                        }
+                        if !ctx.case(|| format!("EliasFanoBuilder::push invalid n={n} u={u} seq={s:?} after={k} bad={bad} class={class} prefix-by={} bad-by={}", ["push", "extend", "extend-each"][pmode], ["push", "extend-one", "extend-with-rest"][bmode])) {
                             continue;
                         }
                         ctx.nontrivial();
                         let r = guard(|| {
                             let mut efb = EliasFanoBuilder::new(n, u);
-                            for &x in &s[..k] {
-                                efb.push(x);
+                            match pmode {
+                                0 => {
+                                    for &x in &s[..k] {
+                                        efb.push(x);
+                                    }
+                                }
+                                1 => efb.extend(s[..k].iter().copied()),
+                                _ => {
+                                    for &x in &s[..k] {
+                                        efb.extend(std::iter::once(x));
+                                    }
+                                }
                             }
-                            let rejected = guard(|| efb.push(bad)).is_panic();
+                            let rejected = match bmode {
+                                0 => guard(|| efb.push(bad)).is_panic(),
+                                1 => guard(|| efb.extend(std::iter::once(bad))).is_panic(),
+                                _ => guard(|| efb.extend(std::iter::once(bad).chain(s[k..].iter().copied()))).is_panic(),
+                            };
                             // continue with the valid rest on the same builder
                             let cont = guard(|| {
                                 for &x in &s[k..] {
@@ -373,7 +421,7 @@ fn main() {
     };
     let std_b = [Builder::Push, Builder::Extend, Builder::ConcurrentReverse];
     // (a) all non-decreasing sequences of length <= N over 0..=M
-    let (nmax, vmax) = if t { (6, 13) } else { (5, 12) };
+    let (nmax, vmax) = if t { (8, 16) } else { (6, 14) };
     for n in 0..=nmax {
         let mut seqs = vec![];
         gen(n, vmax, &mut vec![], &mut seqs);
@@ -479,6 +527,7 @@ fn main() {
     }
     if prop == "C03" {
         invalid_pushes(&mut ctx);
+        invalid_slices(&mut ctx);
     }
     ctx.finish();
 }
